@@ -927,7 +927,8 @@ func (e *Exec) rangeStmt(x *ast.RangeStmt, st *State, fr *Frame) Flow {
 		head := st.clone()
 		e.loopHavoc(head, fr, eff, ord)
 		seen := e.havocKey(head, sk, seenT)
-		dom := e.mapDom(head, coll)
+		// a nil map has no keys
+		dom := e.vc.Define("rdom", fmt.Sprintf("(Array %s Bool)", ks), fmt.Sprintf("(ite (= %s 0) ((as const (Array %s Bool)) false) %s)", coll.S, ks, e.mapDom(head, coll)))
 		// seen is a subset of dom
 		kq := e.vc.FreshConst("kq", ks)
 		_ = kq
